@@ -11,8 +11,8 @@ From GM Require Import Base.Topic Base.Msg Model.SubTrie Model.SubSpec Model.Ret
   Oracle.C17O Proofs.FedRouteP Proofs.FedSharedP Proofs.FedPlainP.
 
 (* a lookup by topic with all subscription types on a store returns exactly the stored
-   matching subscriptions: the shared ones (filter matched level-wise) followed by the
-   non-shared ones (MQTT 4.7 incl. the '$' rule), each once *)
+   matching subscriptions: the shared ones followed by the non-shared ones (both matched by
+   MQTT 4.7 incl. the '$' rule, the shared ones since the repair 8c233d3), each once *)
 Theorem C17_fed_lookup_exact :
   forall (ops : list op) (t : str),
     wf_ops ops = true -> t <> [] -> no_wild_levels (split t) = true ->
@@ -23,7 +23,7 @@ Theorem C17_fed_lookup_exact :
       NoDup lsh /\ NoDup lpl /\
       (forall c s, In (c, s) lsh <->
          (s_share s <> [] /\ sp_get (c, s_share s, s_filter s) (spec_run ops) = Some s /\
-          lm (split t) (split (s_filter s)) = true)) /\
+          topic_match t (s_filter s) = true)) /\
       (forall c s, In (c, s) lpl <->
          (s_share s = [] /\ sp_get (c, [], s_filter s) (spec_run ops) = Some s /\ topic_match t (s_filter s) = true)).
 Proof. exact lookup_all_exact. Qed.
@@ -48,8 +48,8 @@ Theorem C17_plain_exact :
     r_local st = db_run local_ops -> r_fed st = db_run fed_ops ->
     wf_ops local_ops = true -> wf_ops fed_ops = true ->
     m_retained m = false -> m_topic m <> [] -> no_wild_levels (split (m_topic m)) = true ->
-    (forall c g f s, g <> [] -> sp_get (c, g, f) (spec_run local_ops) = Some s -> lm (split (m_topic m)) (split f) = false) ->
-    (forall c g f s, g <> [] -> sp_get (c, g, f) (spec_run fed_ops) = Some s -> lm (split (m_topic m)) (split f) = false) ->
+    (forall c g f s, g <> [] -> sp_get (c, g, f) (spec_run local_ops) = Some s -> topic_match (m_topic m) f = false) ->
+    (forall c g f s, g <> [] -> sp_get (c, g, f) (spec_run fed_ops) = Some s -> topic_match (m_topic m) f = false) ->
     snd (fst (fr_send_message st m)) = false /\ snd (fr_send_message st m) = None /\
     forall n q, aget n (r_peers st) = Some q ->
       (node_plain_matches (spec_run fed_ops) n (m_topic m) ->
